@@ -6,12 +6,14 @@ CONSTANTS
   StartEpochs = {0}
   MaxRound = 12
   MaxSkip = 6
+  MaxEpoch = 6
   ForceRounds <- MCForceRounds
   Nonces = {3, 4}
   W <- MCW
   ForceModes = {"wrap"}
   Log <- LogLast
   Depth = 0
+  SampleK = 1
 VIEW cvars
 INVARIANTS TypeOK
 PROPERTIES Act_C34_EpochStep Act_C34_MinDistance Act_C34_Unforced Act_C34_MaxLength
